@@ -24,7 +24,7 @@ claim("C01", "E1 model",
       MODEL_NOTE, "DESIGN §5 C01")
 claim("C02", "E1 model",
       "runtime monitoring: reference-model monitor over all bound/flag/flavour combinations of repeated()/separated_by(), exhaustive small + random long inputs",
-      "All (at_least, at_most | exactly) in 0..4 x allow_leading/allow_trailing x 8 collection flavours x folds x static/configure bounds x small item/separator grammars x all inputs up to the bound, plus long random inputs: item sequence, fold order (non-commutative fold), count and the unconsumed remainder are compared with the reference semantics.",
+      "All (at_least, at_most | exactly) in 0..4 x allow_leading/allow_trailing x 8 collection flavours x folds x static/configure bounds x small item/separator grammars x all inputs up to the bound, plus long random inputs: item sequence, fold order (non-commutative fold), count and the unconsumed remainder are compared with the reference semantics. Every second input once more with the iterable parser driven through an explicit .clone() of itself.",
       MODEL_NOTE + " A1/A2 (separator at at_most with allow_trailing; lone leading separator) are compared leniently and counted as ambiguous.", "DESIGN §5 C02")
 claim("C03", "E1 model",
       "runtime monitoring: result-contract assertions on every ParseResult + reference-model monitor for whole-input / one-token-extension / lazy-prefix",
@@ -45,7 +45,7 @@ claim("C05", "E1 model",
       MODEL_NOTE + " A3: emissions of and_is' second parser may or may not appear.", "DESIGN §5 C05")
 claim("C06", "E1 model + E2 differential",
       "runtime monitoring: reference-model monitor of the last reported error of every rejected input (position, span, expected set, user error, found) + cross-error-type differential (Rich/Simple/Cheap/EmptyErr) between real executions",
-      "Every grammar of the C01/C02 class without not() up to a node bound x all small inputs (+ sheltering sweep + random multi-byte): the last reported error is judged (a) against the input alone, (b) against the furthest failure position of the reference evaluation, (c) on the merged expected set / preserved user error, (d) across the four error types.",
+      "Every grammar of the C01/C02 class without not() up to a node bound x all small inputs (+ sheltering sweep + random multi-byte): the last reported error is judged (a) against the input alone, (b) against the furthest failure position of the reference evaluation, (c) on the merged expected set / preserved user error, (d) across the four error types. nested_in (two region shapes) is part of the sheltering sweep; errors raised inside a nested input are exempt from the found-vs-input clause (A6).",
       MODEL_NOTE + " Known finding D3 (found of a filter rejection) is reported as KNOWN-FINDING by signature.", "DESIGN §5 C06")
 claim("C08", "E1 model",
       "runtime monitoring: reference-model monitor over executions of recover_with (all four strategies, nested, after deeper failures, in repetitions), valid and invalid inputs",
@@ -58,12 +58,12 @@ claim("C17", "E2 differential + E1 model",
 
 claim("C07", "E1 model",
       "runtime monitoring: reference-model monitor over span + slice captures at every node (slice text and address), on contiguous and gapped-span input kinds",
-      "Every node of every small C01/C02-class grammar is wrapped in a map_with capture of span and slice, on &str (byte offsets, multi-byte text), &[char], Stream, and gapped-span kinds (Input::map over a slice, Stream::map, IterInput): every extent, every empty-match span, slice text and slice address (zero-copy), fold callback spans, spans handed to validate/try_map closures and zero-width probe spans are compared with the reference evaluation.",
+      "Every node of every small C01/C02-class grammar is wrapped in a map_with capture of span and slice, on &str (byte offsets, multi-byte text), &[char], Stream, and gapped-span kinds (Input::map over a slice, Stream::map, IterInput): every extent, every empty-match span, slice text and slice address (zero-copy), fold callback spans, spans handed to validate/try_map closures and zero-width probe spans are compared with the reference evaluation. Model-free API family: InputRef::{span_since, span_from, slice, slice_since, slice_from}, MapExtra::{span, slice}, to_span, to_slice against the caller's buffer (address and length), &str and &[char].",
       MODEL_NOTE, "DESIGN §5 C07")
 
 claim("C10", "E2 differential + E1 model",
       "runtime monitoring: differential monitor between real executions of one grammar on one token sequence in 14 input representations (normalised by the documented re-basing), each also against the reference model; pull-log monitor on a counting iterator under Stream; Graphemes vs whole-string segmentation",
-      "&[char] is the reference; &str, &[char;N], Stream (plain, boxed, exact-size boxed, counting), IterInput, mapped (token,span) slice, Stream::map, with_context, map_span are normalised to token indices and compared field by field (acceptance, outputs with extents, every error, state, probe trace); inputs of 511..1301 tokens with alternatives failing across the 512-token batch; the counting iterator must be pulled 0,1,2,.. exactly once each; u8 grammars on &[u8] / IoInput / Stream / array; Graphemes tokens and spans against unicode-segmentation.",
+      "&[char] is the reference; &str, &[char;N], Stream (plain, boxed, exact-size boxed, counting), IterInput, mapped (token,span) slice, Stream::map, with_context, map_span are normalised to token indices and compared field by field (acceptance, outputs with extents, every error, state, probe trace); inputs of 511..1301 tokens with alternatives failing across the 512-token batch; the counting iterator must be pulled 0,1,2,.. exactly once each; u8 grammars on &[u8] / IoInput / Stream / array; Graphemes tokens and spans against unicode-segmentation. A primitive failure at the end of a (token, span) input must carry exactly the end-of-input span the input was given; IoInput is also built over readers that have already been read from.",
       MODEL_NOTE + " IterInput only implements Input, so its leaf basis is restricted.", "DESIGN §5 C10")
 
 claim("C16", "E1 model + independent recogniser",
@@ -78,7 +78,7 @@ claim("C18", "E1 model + model-free position-carrying observations",
 
 claim("C15", "E1 model",
       "runtime monitoring: reference-model monitor over context observations made at every node, in probes, select closures and fold callbacks, and over the behaviour of parsers configured from context",
-      "Grammars with context providers (with_ctx, map_ctx, then_with_ctx, ignore_with_ctx) and readers (configure(seq), configure(exactly), try_configure with an error case, probes), exhaustive small + hand-listed families (length-prefixed incl. a^n b^n, delimiter-echo, indentation-like, nested/shadowing providers, providers in repetitions/choices/recursion) + random: every observation must equal the value supplied by the nearest enclosing provider for this attempt; configured parsers must accept exactly what the reference semantics of the static configuration accepts.",
+      "Grammars with context providers (with_ctx, map_ctx, then_with_ctx, ignore_with_ctx) and readers (configure(seq), configure(exactly), try_configure with an error case, probes), exhaustive small + hand-listed families (length-prefixed incl. a^n b^n, delimiter-echo, indentation-like, nested/shadowing providers, providers in repetitions/choices/recursion) + random: every observation must equal the value supplied by the nearest enclosing provider for this attempt; configured parsers must accept exactly what the reference semantics of the static configuration accepts. Statically typed model-free families: configure by reference vs owned vs static; every pair of bounds in 0..4 (incl. at_least > at_most) configured vs static; context providers as iterables (alone and chained behind other iterables) vs the parser-level formulation.",
       MODEL_NOTE, "DESIGN §5 C15")
 
 claim("C11", "E2 differential + E1 model + E6 process",
@@ -88,7 +88,7 @@ claim("C11", "E2 differential + E1 model + E6 process",
 
 claim("C12", "E1 model + E2 differential + E6 process + E7 sanitizer",
       "runtime monitoring: reference-model monitor (the model's reference rule is the unrolling) and real-vs-real differential against the explicit unrolling for generated recursive definitions; handle-juggling family against a hand recogniser; child-process monitor (exit status / signal / RSS / watchdog) for nesting depth on a 512 KiB thread stack; panic-location monitor for a second define(); Miri on a small-depth slice",
-      "Guarded recursive definitions (recursive() and declare/define, single and mutually recursive, 5 reference shapes) exhaustively for small bodies x all small inputs and randomly for larger ones are compared with the reference model at every recursion level and with their explicit unrolling; 11 clone/box/Rc/Either/drop orders of handles; 7 nesting shapes (incl. Pratt prefix chains, Pratt with recursive atoms, memoized recursion, mutual recursion through boxed()) parsed at depths up to 10^6 in child processes on a 512 KiB stack; a second define() must panic naming the caller's site and leave the first definition intact.",
+      "Guarded recursive definitions (recursive() and declare/define, single and mutually recursive, 5 reference shapes) exhaustively for small bodies x all small inputs and randomly for larger ones are compared with the reference model at every recursion level and with their explicit unrolling; 11 clone/box/Rc/Either/drop orders of handles; 7 nesting shapes (incl. Pratt prefix chains, Pratt with recursive atoms, memoized recursion, mutual recursion through boxed()) parsed at depths up to 10^6 in child processes on a 512 KiB stack; a second define() must panic naming the caller's site and leave the first definition intact. Depth towers also on 24 KiB and 64 KiB thread stacks (depths 60 / 300 / 10^4).",
       MODEL_NOTE + " 'Limited by memory' is shown up to 10^6 levels only; Miri runs without stacker (psm is FFI).", "DESIGN §5 C12")
 claim("C13", "E2 differential + E7 sanitizer",
       "runtime monitoring: history monitor (k-th result through one parser value vs a freshly built parser) over all short (input, parse|check) histories through 10 wrapper kinds and Cache; thread monitor (results of 2..8 threads sharing Send+Sync parsers vs the sequential reference, start/finish event log through an atomic clock); Miri data-race detector with several scheduler seeds, TSan in the thorough tier",
@@ -100,7 +100,7 @@ claim("C14", "E4 text recognisers",
       "Trusted: the hand recognisers in harness/src/props/c14.rs; unicode-ident and regex-automata are the same crates chumsky uses (used whole-string / directly), so table errors in those crates are invisible.", "DESIGN §5 C14")
 claim("C19", "E5 drop ledger + E7 sanitizer",
       "runtime monitoring: live-instance ledger of drop-tracking values created by mappers at every node (read while the ParseResult is alive and after it is dropped) and of drop-tracking tokens on slice and stream inputs; Miri with leak checking (quick) and ASan+LSan (thorough) on the same drivers",
-      "Generated grammars with group([..;N]), tuple groups, collect_exactly::<[_;N]> (repeated and separated_by), Vec/unit repetitions, folds, lookahead, filter/try_map, recovery, memoized x all small inputs, parse and check: while the result is alive the live tracked instances are exactly those reachable from the output (each once); after dropping it none of this parse's values is alive; no instance dropped twice. 11 statically typed grammars over drop-tracked tokens on &[T] (originals stay alive, clones balanced) and Stream (everything balanced once the stream is gone).",
+      "Generated grammars with group([..;N]), tuple groups, collect_exactly::<[_;N]> (repeated and separated_by), Vec/unit repetitions, folds, lookahead, filter/try_map, recovery, memoized x all small inputs, parse and check: while the result is alive the live tracked instances are exactly those reachable from the output (each once); after dropping it none of this parse's values is alive; no instance dropped twice. 11 statically typed grammars over drop-tracked tokens on &[T] (originals stay alive, clones balanced) and Stream (everything balanced once the stream is gone). Includes iterables that ask for more items than the fixed-size collection holds (at_least(k) / exactly(k), k > N).",
       "The ledger stores ids, not addresses, so leaks stay visible to Miri/LSan. A panic's aftermath is not judged (C20). Recursive::declare/define cycles are a documented parser-side leak and are kept out of the leak-checked workload.", "DESIGN §5 C19")
 claim("C20", "E6 process + E1 model (step budget) + E7 sanitizer",
       "runtime monitoring: child-process monitor (exit status, signal, per-case CPU-time hang monitor, wall-clock watchdog, re-run in trace mode to name the case), per-case panic capture, logical step budget in an Inspector judged against the reference model's budget, ParseResult-contract assertions, bounds/char-boundary checks on every reported span and returned slice, step-growth monitor on scaling families; Miri (quick) and ASan (thorough) on the text/byte/grapheme drivers",
